@@ -23,6 +23,7 @@ typedef struct
     size_t num;
     unsigned char e[MAXE][MAXSZ];
     int sorted; /* model knows the sequence is sorted by key */
+    int by_ctor; /* constructed in caller-provided storage (ctor/dtor) instead of new/die */
 } seq;
 
 static size_t g_siz; /* element size for cmp/dtor callbacks */
@@ -319,13 +320,31 @@ static int new_container(seq *s, int is_buf, size_t siz, size_t cap)
     s->is_buf = is_buf;
     s->siz = siz ? siz : 1;
     s->sorted = 1;
-    if (is_buf)
+    s->by_ctor = (int)(cap & 1) ^ (int)(siz & 1) ^ (int)(vf.case_no >> 1 & 1);
+    if (is_buf && s->by_ctor)
+    {
+        /* constructor on caller-provided storage (exact size: header + payload) */
+        vf_log("a_buf_ctor(storage of %zu bytes, %zu, %zu)", sizeof(a_buf) + (siz ? siz : 1) * cap, siz, cap);
+        s->b = (a_buf *)malloc(sizeof(a_buf) + (siz ? siz : 1) * cap);
+        a_buf_ctor(s->b, siz, cap);
+        VF_COUNT("ctor-dtor-on-caller-storage");
+        if (a_buf_mem(s->b) != cap) { vf_viol("buf_ctor/capacity", "a_buf_ctor(%zu,%zu) has mem %zu", siz, cap, a_buf_mem(s->b)); }
+    }
+    else if (is_buf)
     {
         vf_log("a_buf_new(%zu, %zu)", siz, cap);
         s->b = a_buf_new(siz, cap);
         if (!s->b) { return 0; }
         VF_COUNT("buf-new-capacity");
         if (a_buf_mem(s->b) != cap) { vf_viol("buf_new/capacity", "a_buf_new(%zu,%zu) has mem %zu", siz, cap, a_buf_mem(s->b)); }
+    }
+    else if (s->by_ctor)
+    {
+        vf_log("a_vec_ctor(%zu)", siz);
+        s->v = (a_vec *)malloc(sizeof(a_vec));
+        memset(s->v, 0xA5, sizeof(a_vec));
+        a_vec_ctor(s->v, siz);
+        VF_COUNT("ctor-dtor-on-caller-storage");
     }
     else
     {
@@ -340,7 +359,17 @@ static void del_container(seq *s)
 {
     g_siz = s->siz;
     dtor_n = 0;
-    if (s->is_buf) { a_buf_die(s->b, dtor_elem); }
+    if (s->by_ctor)
+    {
+        if (s->is_buf) { a_buf_dtor(s->b, dtor_elem); free(s->b); }
+        else
+        {
+            a_vec_dtor(s->v, dtor_elem);
+            if (a_vec_ptr(s->v) || a_vec_num(s->v) || a_vec_mem(s->v)) { vf_viol("vec_dtor/object-not-empty", "ptr %p num %zu mem %zu after a_vec_dtor", a_vec_ptr(s->v), a_vec_num(s->v), a_vec_mem(s->v)); }
+            free(s->v);
+        }
+    }
+    else if (s->is_buf) { a_buf_die(s->b, dtor_elem); }
     else { a_vec_die(s->v, dtor_elem); }
     VF_COUNT("die-destroys-each-element-once");
     if (dtor_n != s->num)
@@ -825,10 +854,13 @@ static void vf_case(uint64_t c, vf_rng *r)
                 t = S[0];
                 {
                     a_vec *v0 = S[0].v, *v1 = S[1].v;
+                    int c0 = S[0].by_ctor, c1 = S[1].by_ctor;
                     S[0] = S[1];
                     S[1] = t;
                     S[0].v = v0;
                     S[1].v = v1;
+                    S[0].by_ctor = c0;
+                    S[1].by_ctor = c1;
                 }
                 g_siz = S[0].siz;
                 alive = check_state(&S[0]) && check_state(&S[1]);
